@@ -181,7 +181,9 @@ GenMarkers ==
   /\ UNCHANGED <<svars, dirv, down, snd, rcv, main, sent>>
 
 (* ================================================================ receiving side: receiver *)
+RcvMayRun == ~RcvAfterGen \/ gen.pc = "done"
 RcvRead ==
+  /\ RcvMayRun
   /\ rcv.pc = "read" /\ down # <<>> /\ Head(down)[1] \in {"ans", "ack"}
   /\ down' = Tail(down)
   /\ LET y == Head(down) IN
@@ -189,12 +191,14 @@ RcvRead ==
               ELSE IF y[2] = 1 THEN P("read", 0) ELSE P("done", 0)
   /\ UNCHANGED <<svars, dirv, up, snd, gen, main, sent>>
 RcvToks ==
+  /\ RcvMayRun
   /\ rcv.pc = "toks" /\ GetDown("tok") /\ Head(down)[2] = rcv.f /\ rcv' = P("end", rcv.f)
   /\ UNCHANGED <<svars, dirv, up, snd, gen, main, sent>>
 (* the whole-file checksum arrived and matched: RecvSide's Rcv (rename over  *)
 (* the destination, attributes) - the ONLY step that changes a listed       *)
 (* regular file                                                             *)
 RcvCommit ==
+  /\ RcvMayRun
   /\ rcv.pc = "end" /\ GetDown("end") /\ Head(down)[2] = rcv.f
   /\ pend # <<>> /\ Head(pend).name = list[rcv.f].name
   /\ SRcv
@@ -206,7 +210,7 @@ RStutter == Finished /\ UNCHANGED rvars
 SndAct == SndHandshake \/ SndList \/ SndLoop
 MainAct == MainHandshake \/ MainList \/ MainDelete \/ MainJoin \/ MainEnd
 GenAct == GenEntry \/ GenSums \/ GenMarkers
-RcvAct == (~RcvAfterGen \/ gen.pc = "done") /\ (RcvRead \/ RcvToks \/ RcvCommit)
+RcvAct == RcvRead \/ RcvToks \/ RcvCommit
 RSteps == SndAct \/ MainAct \/ GenAct \/ RcvAct
 RNext == RSteps \/ RStutter
 RSpec == RInit /\ [][RNext]_rvars /\ WF_rvars(SndAct) /\ WF_rvars(MainAct) /\ WF_rvars(GenAct) /\ WF_rvars(RcvAct)
